@@ -259,7 +259,18 @@ func (sc *StructureClass) LoadForm() slip.Object {
 	}
 	for i, slot := range sc.slots {
 		if i < sc.initialOffset+inheritedCount {
-			continue // Skip inherited slots
+			// Skip inherited slots unless the slot description was
+			// overridden by this structure.
+			if j := i - sc.initialOffset; sc.include != nil && 0 <= j && j < len(sc.include.slots) {
+				ps := sc.include.slots[j]
+				if ps.name == slot.name &&
+					(!slip.ObjectEqual(ps.initform, slot.initform) ||
+						!slip.ObjectEqual(ps.slotType, slot.slotType) ||
+						ps.readOnly != slot.readOnly) {
+					form = append(form, sc.slotLoadForm(slot))
+				}
+			}
+			continue
 		}
 		slotForm := sc.slotLoadForm(slot)
 		form = append(form, slotForm)
